@@ -59,7 +59,7 @@ Allowed ==
          /\ LET xs == Extents(Ev.i) IN
             /\ (xs # {} /\ Ev.i < count /\ \A x \in xs : ~InFile(x)) => ~Ev.ok     \* "refused rather than delivered short" (also for compressed members)
             /\ (xs # {} /\ Ev.i < count /\ Ev.ok /\ StoredPlain(Ev.i)) => \E x \in xs : InFile(x) /\ Ev.val = Slice(x)
-    [] Ev.call = "OpenStream" ->
+    [] Ev.call \in {"OpenStream", "OpenStreamAfterFailedRead"} ->         \* (the second form: a read of one byte too many is refused first; logged under the same key)
          /\ (Ev.i >= count => ~Ev.ok)
          /\ LET xs == Extents(Ev.i) IN
             (xs # {} /\ Ev.i < count) =>
